@@ -1,5 +1,5 @@
 SPECIFICATION Spec
-CONSTANTS Variant = "ok"  MaxT = 4  Drives <- DrivesT  InvEps <- IeQ  CellKinds <- KindsT
+CONSTANTS Variant = "ok"  MaxT = 4  Drives <- DrivesT  InvEps <- IeQ  CellKinds <- KindsT  Losses <- LossT
 INVARIANT TypeOK
 INVARIANT History
 INVARIANT Recurrence
